@@ -78,6 +78,7 @@ def model(flows=None, apu='running', aclass='narrow'):
 
 
 ALT = [900.0, 4000.0, 9500.0, 12500.0, 10800.0, 6000.0, 2500.0, 11000.0]
+ALT_LOW = [300.0, 1200.0, 2400.0, 2400.0, 1500.0, 600.0, 1800.0, 2400.0]   # InventoryGen.tla AltProfile "low": a hop below 2.5 km
 TAS = [150.0, 200.0, 235.0, 240.0, 230.0, 210.0, 160.0, 238.0]
 FF = [1.9, 1.4, 0.9, 0.05, 0.6, 0.3, 3.2, 0.0]
 
@@ -86,8 +87,9 @@ class PlainTrajectory:
     """A flown trajectory as a plain object (what compute_emissions reads: fuel_mass, altitude, true_airspeed,
     fuel_flow, n_climb, n_descent, len) - InventoryGen.tla carriers plain_float / plain_int (whole-number arrays)."""
 
-    def __init__(self, burn_g, nc, nd, start_fuel_kg, dtype):
+    def __init__(self, burn_g, nc, nd, start_fuel_kg, dtype, alts=None):
         n = len(burn_g)
+        ALT = alts or globals()['ALT']
         fm = [start_fuel_kg]
         for b in burn_g[1:]:
             fm.append(fm[-1] - b / 1000.0)
@@ -107,10 +109,11 @@ class PlainTrajectory:
         return len(self.fuel_mass)
 
 
-def synthetic_traj(burn_g, nc, nd, start_fuel_kg=500.0, carrier='container'):
+def synthetic_traj(burn_g, nc, nd, start_fuel_kg=500.0, carrier='container', profile='high'):
     """Trajectory whose fuel_mass profile realises the integer burns (grams)."""
+    alts = ALT_LOW if profile == 'low' else ALT
     if carrier != 'container':
-        return PlainTrajectory(burn_g, nc, nd, start_fuel_kg, float if carrier == 'plain_float' else np.int64)
+        return PlainTrajectory(burn_g, nc, nd, start_fuel_kg, float if carrier == 'plain_float' else np.int64, alts)
     from AEIC.trajectories.trajectory import Trajectory
 
     n = len(burn_g)
@@ -120,7 +123,7 @@ def synthetic_traj(burn_g, nc, nd, start_fuel_kg=500.0, carrier='container'):
         fm.append(fm[-1] - b / 1000.0)
     t.fuel_mass = np.array(fm)
     t.aircraft_mass = np.array(fm) + 60000.0
-    t.altitude = np.array([ALT[i % len(ALT)] for i in range(n)])
+    t.altitude = np.array([alts[i % len(alts)] for i in range(n)])
     t.flight_level = t.altitude / 30.48
     t.true_airspeed = np.array([TAS[i % len(TAS)] for i in range(n)])
     t.ground_speed = t.true_airspeed
